@@ -230,7 +230,7 @@ def obligations(tier):
                        desc="%s._merge_qualifiers(parent qualifiers) / export_qualifiers(parent qualifiers) is the key-wise set union of the interval's own and the "
                             "parent's qualifiers (plus only the documented identifier keys on export); both operands unchanged and not aliased" % kind,
                        bounds="all %d ordered pairs of catalogue dictionaries (incl. none, empty, shared keys, case-different keys)" % (len(QD) ** 2),
-                       examples=[dict(i=3, j=5), dict(i=0, j=7)]))
+                       examples=[dict(i=3, j=4), dict(i=0, j=7)]))
     nf = len(FKEYS)
     out.append(Obl("filter_and_sort_qualifiers", filter_sort_fn(), {"i": int, "j": int, "k": int},
                    lambda i, j, k: 0 <= i and i < j and j < k and k < nf if tier == "thorough" else (0 <= i and i < j and j < k and k < nf and (i + j + k) % 4 == 0),
